@@ -521,14 +521,18 @@ def run (ops : List Op) : State := ops.foldl (fun s op => (step s op).1) State.i
 
 /-! ## content check (`mem=`) -/
 
-def checkBytes (a : Array Nat) (o : Nat) (f : Nat → Nat) : Nat → Nat → Bool
+/-- bytes `o+i … o+i+n-1` of `a` equal `pat id i …` -/
+def checkPat (a : Array Nat) (o id : Nat) : Nat → Nat → Bool
   | _, 0 => true
-  | i, n + 1 => if a[o + i]? = some (f i) then checkBytes a o f (i + 1) n else false
+  | i, n + 1 =>
+    if h : o + i < a.size then
+      if a[o + i] = pat id i then checkPat a o id (i + 1) n else false
+    else false
 
 /-- block `b` holds its pattern over its requested size -/
 def blockOk (m : Mem) (b : Block) : Bool :=
   match m[b.reg]? with
-  | some a => checkBytes a b.off (pat b.id) 0 b.req
+  | some a => checkPat a b.off b.id 0 b.req
   | none => false
 
 /-- lowest-numbered live block whose contents differ from its pattern -/
@@ -595,7 +599,7 @@ def runLine (s : Session) (toks : List String) : Session × String :=
     | some op =>
       let (st, out) := step s.st op
       match showOut out with
-      | none => (s, "bad-op")
+      | none => (⟨st⟩, "bad-op")      -- `st` is the unchanged state (skipped op)
       | some line => (⟨st⟩, line ++ showMem (memCheck st))
 
 end Sonic.Model.Pool
